@@ -24,7 +24,7 @@ import (
 
 type site struct {
 	pkg, fn, kind, expr string
-	op                  string // Lean term of type Op
+	op                  string   // Lean term of type Op
 	guards              []string // Lean terms of type G
 }
 
